@@ -536,7 +536,7 @@ func main() {
 		}
 	}
 	r := gen.NewRand(f.Seed)
-	nHook := f.N(1500, 60000)
+	nHook := f.N(1500, 40000)
 	for i := 0; i < nHook; i++ {
 		op := "trunc"
 		if i%2 == 1 {
@@ -545,10 +545,14 @@ func main() {
 		emitHook(w, genHookCase(r, op, i%20 == 19), "")
 	}
 	start := time.Now()
-	nE2E := f.N(60, 2500)
+	nE2E := f.N(60, 1200)
+	budget := 40 * time.Second // quick tier: stay within ~60 s whatever the machine load
+	if f.Tier == "thorough" {
+		budget = 10 * time.Minute
+	}
 	for i := 0; i < nE2E; i++ {
 		runE2E(w, genE2E(r.Fork()), "")
-		if f.Tier == "quick" && time.Since(start) > 40*time.Second {
+		if time.Since(start) > budget {
 			w.Count("e2e/stopped-early-at", i)
 			break
 		}
